@@ -20,6 +20,8 @@ def peel(ty):
     ty = ty.strip()
     while ty.startswith("&"):
         ty = ty[1:].strip()
+        if ty.startswith("'"):                       # a named lifetime: &'a T
+            ty = ty.split(" ", 1)[1].strip() if " " in ty else ty
         if ty.startswith("mut "):
             ty = ty[4:]
     return ty
@@ -40,6 +42,7 @@ class Norm:
         self.accessors = self._accessors()
         self.normalizers = self._normalizers()
         self.req = {}          # (fn path, param index) -> {'level': 'norm+nonid'|'norm', 'via': [...]}
+        self.freq = {}         # (crate-local struct, field index) -> the same, for a point kept in a state struct between calls
         self._zp = {}
         self._infer()
 
@@ -262,6 +265,13 @@ class Norm:
                         arg = tb.call_args(bi)[ai]
                         ps = {self.base_param(b, a) for a in alts(strip(arg))}
                         if None in ps or len(ps) != 1:
+                            sf = {self.struct_field(b, a) for a in alts(strip(arg))}
+                            if None not in sf and len(sf) == 1:
+                                k = sf.pop()
+                                curf = self.freq.get(k)
+                                if curf is None or (curf["level"] == "norm" and r["level"] == "norm+nonid"):
+                                    self.freq[k] = {"level": r["level"], "why": "field %d of %s is handed to %s (param %d)" % (k[1], k[0], d, ai + 1)}
+                                    changed = True
                             continue
                         p = ps.pop()
                         path = b.rec["path"]
@@ -277,6 +287,76 @@ class Norm:
                             self.req[(path, p)] = {"level": lvl, "why": "passes `%s` (unchanged up to z-preserving maps) to %s (param %d)" % (b.local_name(p), d, ai + 1),
                                                    "direct": False, "via": (d, ai + 1)}
                             changed = True
+                # a state struct with a required field is built here from one of this function's own parameters: the requirement moves on
+                for bi2, si2, adt2, ops2 in self.constructions(b):
+                    for (sp_, fi_), rf in list(self.freq.items()):
+                        if sp_ != adt2 or fi_ >= len(ops2):
+                            continue
+                        tb = tb or self.repo.tb(b)
+                        term = tb.operand(ops2[fi_], bi2, si2)
+                        ps = {self.base_param(b, a) for a in alts(strip(term))}
+                        if None in ps or len(ps) != 1:
+                            continue
+                        p = ps.pop()
+                        cur = self.req.get((b.rec["path"], p))
+                        if cur is None or (cur["level"] == "norm" and rf["level"] == "norm+nonid"):
+                            self.req[(b.rec["path"], p)] = {"level": rf["level"], "why": "stores `%s` in field %d of %s, from where it %s" % (b.local_name(p), fi_, sp_.split("::")[-1], rf["why"]),
+                                                            "direct": False, "via": (sp_, fi_)}
+                            changed = True
+
+    def constructions(self, b):
+        """[(block, statement index, struct path, operands)] for every crate-local struct literal in `b`"""
+        out = []
+        for bi, blk in enumerate(b.blocks):
+            for si, st in enumerate(blk["stmts"]):
+                if st["k"] == "assign" and st["rv"]["k"] == "aggregate" and st["rv"].get("agg") == "adt" and st["rv"].get("adt") in self.F.adts:
+                    out.append((bi, si, st["rv"]["adt"], st["rv"]["ops"]))
+        return out
+
+    def struct_field(self, body, t):
+        """(struct path, field index) when the term reads a point (or a reference to one) out of a field of a crate-local struct that
+        is never assigned after construction (a loop state object carrying its fixed argument)"""
+        t = strip(t)
+        for _ in range(4):
+            if t[0] in ("deref", "ref"):
+                t = strip(t[1])
+        if t[0] != "field":
+            return None
+        sty = peel(type_of_term(self.F, body, t[1]) or "").split("<")[0]
+        adt = self.F.adts.get(sty)
+        if not adt or adt.get("kind") != "Struct" or sty in WRAPPERS or is_g(sty):
+            return None
+        flds = adt["variants"][0]["fields"]
+        if t[2] >= len(flds) or not is_g(peel(flds[t[2]].get("ty") or "")):
+            return None
+        if flds[t[2]].get("vis") == "Public" or self._field_assigned(sty, t[2]):
+            return None
+        return (sty, t[2])
+
+    def _field_assigned(self, sty, fi):
+        key = (sty, fi)
+        cache = self.__dict__.setdefault("_fa", {})
+        if key not in cache:
+            from core.sm9 import place_types
+            hit = False
+            for b in self.F.fn_bodies():
+                for blk in b.blocks:
+                    for st in blk["stmts"]:
+                        if st["k"] != "assign":
+                            continue
+                        for pl in (st["place"], st["rv"].get("place") if st["rv"]["k"] in ("ref", "rawptr") and st["rv"].get("mut") else None):
+                            if not pl:
+                                continue
+                            for j, e in enumerate(pl["p"]):
+                                if isinstance(e, dict) and e.get("f") == fi:
+                                    try:
+                                        base = (place_types(b, {"l": pl["l"], "p": pl["p"][:j]})[-1] or "").split("<")[0].strip()
+                                    except Exception:
+                                        continue
+                                    if base == sty:
+                                        hit = True
+            cache[key] = hit
+        return cache[key]
 
     def _guarded_z_one(self, b, tb, p, bi):
         """every path of `b` that reaches block `bi` answered `param.z == one()` with equal (finite enumeration of the branch atoms)"""
@@ -573,6 +653,9 @@ def rule_norm(prop, repo, N=None):
                 ps = {N.base_param(b, a) for a in alts(strip(arg))}
                 if None not in ps and all((b.rec["path"], pl) in N.req for pl in ps):
                     continue
+                sf = {N.struct_field(b, a) for a in alts(strip(arg))}
+                if None not in sf and all(k in N.freq for k in sf):
+                    continue          # read out of a state struct's fixed field: checked where that struct is built
                 norm, nonid, desc = N.state_of(b, tb, arg, bi)
                 callee = F.bodies.get(d)
                 pname = callee.local_name(ai + 1) if callee else str(ai + 1)
@@ -587,6 +670,24 @@ def rule_norm(prop, repo, N=None):
                         (b.rec["path"], " and ".join(missing), pname, d, r["why"], desc),
                         loc_of(b, bi), b.rec["path"],
                         sample={"caller": b.rec["path"], "callee": d, "param": pname, "needs": r["level"], "operand": desc})
+    # where a state struct with a required field is built, the stored operand must be in the required state
+    for b in F.fn_bodies():
+        tb = None
+        for bi2, si2, adt2, ops2 in N.constructions(b):
+            for (sp_, fi_), rf in N.freq.items():
+                if sp_ != adt2 or fi_ >= len(ops2):
+                    continue
+                tb = tb or repo.tb(b)
+                term = tb.operand(ops2[fi_], bi2, si2)
+                ps = {N.base_param(b, a) for a in alts(strip(term))}
+                if None not in ps and all((b.rec["path"], pl) in N.req for pl in ps):
+                    continue
+                R.instance()
+                norm, nonid, desc = N.state_of(b, tb, term, bi2)
+                missing = ([] if norm else ["normalised"]) + (["non-identity"] if rf["level"] == "norm+nonid" and not nonid else [])
+                R.check(not missing, "%s:repr-requirement:%s→%s.%d:%s" % (prop, b.rec["path"], sp_.split("::")[-1], fi_, "+".join(missing)),
+                        "%s stores an operand that is not known %s in field %d of %s (%s); operand: %s" % (b.rec["path"], " and ".join(missing), fi_, sp_, rf["why"], desc),
+                        loc_of(b, bi2), b.rec["path"], sample={"builder": b.rec["path"], "struct": sp_, "field": fi_, "needs": rf["level"]})
     # nothing may remain on a public, wrapper-typed boundary: wrapper values are arbitrary (state ⊤)
     for (path, p), r in N.req.items():
         b = F.bodies[path]
